@@ -48,6 +48,9 @@ func (l *ln) WalletBalance(ctx context.Context, in *lnrpc.WalletBalanceRequest, 
 	return &lnrpc.WalletBalanceResponse{}, nil
 }
 
+// maxPaymentMsat: the largest invoice the node imitation creates (10 BTC, lnd's limit with large channels enabled)
+const maxPaymentMsat = 1_000_000_000_000
+
 func (l *ln) AddInvoice(ctx context.Context, in *lnrpc.Invoice, opts ...grpc.CallOption) (*lnrpc.AddInvoiceResponse, error) {
 	if in.Value < 0 || in.ValueMsat < 0 {
 		return nil, status.Error(codes.Unknown, "payments of negative value are not allowed")
@@ -55,7 +58,16 @@ func (l *ln) AddInvoice(ctx context.Context, in *lnrpc.Invoice, opts ...grpc.Cal
 	if in.Value == 0 {
 		return nil, status.Error(codes.Unknown, "zero value invoices are not created by this node imitation")
 	}
-	inv, err := l.b.CreateInvoice(uint64(in.Value))
+	// lnd turns the sat value into msat with its own helper (an unchecked multiplication of 64-bit integers) and only
+	// then looks at the size: what it invoices is that msat amount
+	msat, err := lnrpc.UnmarshallAmt(in.Value, in.ValueMsat)
+	if err != nil {
+		return nil, status.Error(codes.Unknown, err.Error())
+	}
+	if uint64(msat) > maxPaymentMsat {
+		return nil, status.Error(codes.Unknown, "invoice amount exceeds the maximum payment size of this node")
+	}
+	inv, err := l.b.CreateInvoiceMsat(uint64(msat))
 	if err != nil {
 		return nil, rpcErr(err)
 	}
